@@ -11,6 +11,7 @@ import (
 // success is returned without invoking the callback while it has not expired, an error is never stored, after expiry
 // the callback runs again.
 func Verif_C18_cache() {
+	Cache.Flush() // the native replay runs several witnesses in one process: start from an empty cache, as the symbolic run does
 	ops := V.ParamInt("ops", 3)
 	ttl := time.Duration(V.ParamInt("ttlMs", 1000)) * time.Millisecond
 	key := "k"
@@ -18,7 +19,7 @@ func Verif_C18_cache() {
 	var storedVal int
 	var storedAt int64
 	for i := 0; i < ops; i++ {
-		V.ClockAdvance(time.Duration(V.U32("gap")) * time.Microsecond)
+		V.ClockAdvance(time.Duration(V.U32("gap"))) // 0..4.29 s in ns (no multiplication: bvmul by 1000 came back unknown at ops=4)
 		invoked := 0
 		fail := V.Bool("cbFails")
 		val := V.Int("value")
